@@ -71,7 +71,23 @@ namespace cnl {
     public:
         [[nodiscard]] constexpr auto operator()(Lhs const& lhs, Rhs const& rhs) const -> result_type
         {
-            return step1(lhs, rhs);
+            result_type const quotient{lhs / rhs};
+            auto const remainder{lhs % rhs};
+            if (remainder == 0) {
+                return quotient;
+            }
+            // the exact quotient is `quotient + remainder / rhs`; the fraction is positive iff
+            // remainder and rhs have the same sign (formulated so that nothing can overflow)
+            if ((remainder < 0) == (rhs < 0)) {
+                // fraction in (0, 1): round up iff fraction >= 1/2
+                auto const at_least_half{
+                        (rhs < 0) ? remainder <= rhs - remainder : remainder >= rhs - remainder};
+                return at_least_half ? static_cast<result_type>(quotient + 1) : quotient;
+            }
+            // fraction in (-1, 0): round down iff fraction < -1/2
+            auto const more_than_half{
+                    (rhs < 0) ? remainder > -(rhs + remainder) : -remainder > rhs + remainder};
+            return more_than_half ? static_cast<result_type>(quotient - 1) : quotient;
         }
     };
 
